@@ -17,6 +17,7 @@ LEVEL = "exploration"
 RULE = (
     "Hypothesis generates 2-4 JournalStorage workers over one backend (file with either lock, "
     "fakeredis with a small snapshot interval) and a sequential interleaving of 5-60 storage calls "
+    "-- workers are independently constructed storages or pickled copies of worker 0 -- "
     "(the C01 op generator: accepted and rejected ones -- duplicate study name, write to a "
     "finished trial, unknown / deleted ids, incompatible distribution, create-trial in a deleted "
     "study), each issued by a chosen worker; some calls carry an *intruder*: another worker's "
@@ -83,21 +84,23 @@ def case_log(draw: Any) -> dict[str, Any]:
         "backend": draw(st.sampled_from(["file", "file_open", "redis", "redis"])),
         "snapshot_interval": draw(st.sampled_from([2, 3, 5, 100])),
         "n_workers": nw,
+        # worker i >= 1 is a pickled copy of worker 0 (how process pools / joblib / dask hand a
+        # storage to their workers) instead of an independently constructed storage; late joiners
+        # likewise copy a worker
+        "pickled": draw(st.lists(st.booleans(), min_size=nw, max_size=nw)),
         "first": [draw(st.sampled_from(["s0", "s1"])), draw(st.sampled_from(["MINIMIZE", "MAXIMIZE"]))],
         "steps": steps,
     }
 
 
-def run_log(case: dict[str, Any], ctx: Ctx) -> None:
-    import fakeredis
-    import optuna
-    import optuna.storages.journal._storage as js
-    from optuna.storages import JournalStorage
-    from optuna.storages.journal import BaseJournalBackend, JournalFileBackend, JournalFileOpenLock, JournalFileSymlinkLock, JournalRedisBackend
+def _hook_classes() -> Any:
+    """The intruder hook as module-level classes (workers obtained by pickling another worker
+    must be able to pickle their backend)."""
+    g = globals()
+    if "Hook" in g:
+        return g["Hook"], g["HookSnap"]
+    from optuna.storages.journal import BaseJournalBackend
     from optuna.storages.journal._base import BaseJournalSnapshot
-
-    optuna.logging.set_verbosity(optuna.logging.ERROR)
-    warnings.simplefilter("ignore")
 
     class Hook(BaseJournalBackend):
         def __init__(self, inner: Any) -> None:
@@ -122,6 +125,26 @@ def run_log(case: dict[str, Any], ctx: Ctx) -> None:
 
         def load_snapshot(self) -> bytes | None:
             return self.inner.load_snapshot()
+
+    for c in (Hook, HookSnap):
+        c.__qualname__ = c.__name__
+        c.__module__ = __name__
+        g[c.__name__] = c
+    return Hook, HookSnap
+
+
+def run_log(case: dict[str, Any], ctx: Ctx) -> None:
+    import fakeredis
+    import optuna
+    import optuna.storages.journal._storage as js
+    from optuna.storages import JournalStorage
+    from optuna.storages.journal import BaseJournalBackend, JournalFileBackend, JournalFileOpenLock, JournalFileSymlinkLock, JournalRedisBackend
+    from optuna.storages.journal._base import BaseJournalSnapshot
+
+    optuna.logging.set_verbosity(optuna.logging.ERROR)
+    warnings.simplefilter("ignore")
+
+    Hook, HookSnap = _hook_classes()
 
     path = os.path.join(ctx.tmpdir(), f"c06-{os.getpid()}.log")
     for p in (path, path + ".lock"):
@@ -153,7 +176,22 @@ def run_log(case: dict[str, Any], ctx: Ctx) -> None:
             b.sid, b.tid = sid, tid  # type: ignore[assignment]
             return b
 
-        W = [wrap(f"worker{i}", JournalStorage(hooked())) for i in range(case["n_workers"])]
+        import pickle
+
+        def copy_of(src: Any) -> Any:
+            c = pickle.loads(pickle.dumps(src))
+            inner = getattr(c._backend, "inner", c._backend)
+            if case["backend"] == "redis":
+                inner._redis = redis  # a restored redis backend reconnects by URL: point it at the fake again
+            return c
+
+        W = [wrap("worker0", JournalStorage(hooked()))]
+        for i in range(1, case["n_workers"]):
+            if case.get("pickled", [False] * 8)[i]:
+                W.append(wrap(f"worker{i}(pickled copy of worker0)", copy_of(W[0].s)))
+                ctx.event("pickled_workers")
+            else:
+                W.append(wrap(f"worker{i}", JournalStorage(hooked())))
         observers = [wrap(f"observer{i}", JournalStorage(mkb())) for i in range(3)]
         joiners: list[Backend] = []
         trace: list[str] = []
@@ -215,7 +253,10 @@ def run_log(case: dict[str, Any], ctx: Ctx) -> None:
                 if flag:
                     o.s.get_all_studies()
             if stp["join"]:
-                joiners.append(wrap(f"joiner@{log_len}", JournalStorage(mkb())))
+                if case.get("pickled", [False])[0]:
+                    joiners.append(wrap(f"joiner@{log_len}(pickled copy of worker{stp['w']})", copy_of(a.s)))
+                else:
+                    joiners.append(wrap(f"joiner@{log_len}", JournalStorage(mkb())))
                 ctx.event("late_joiners")
 
         fresh = wrap("fresh replay", JournalStorage(mkb()))
